@@ -94,6 +94,8 @@ pub mod pattern;
 mod prefilter;
 mod score;
 mod utf32_str;
+#[cfg(nucleo_verif)]
+pub mod verif;
 
 #[cfg(test)]
 mod tests;
